@@ -490,13 +490,41 @@ fn run_api(c: &Case, sandbox_root: &Path, o: &mut String) {
                     ctx.defines.clone()
                 };
                 let mut buf = String::new();
+                let _ = sv_parser_pp::preprocess::verif_take_parse_log();
                 let res = std::panic::catch_unwind(std::panic::AssertUnwindSafe(|| {
                     run_entry(&mut ctx, &defs, l, &mut buf)
                 }));
+                let pplog = sv_parser_pp::preprocess::verif_take_parse_log();
                 match res {
                     Ok(()) => o.push_str(&buf),
                     Err(e) => {
                         writeln!(o, "panic {}", hex(panic_msg(e).as_bytes())).unwrap();
+                    }
+                }
+                if ctx.want.contains("pplog") {
+                    // every distinct text the preprocessor handed to pp_parser, re-parsed here
+                    let mut seen: HashSet<String> = HashSet::new();
+                    for t in pplog {
+                        if !seen.insert(t.clone()) {
+                            continue;
+                        }
+                        let span = Span::new_extra(&t, SpanInfo::default());
+                        match sv_parser_parser::pp_parser(span) {
+                            Ok((rest, x)) => {
+                                if rest.location_offset() == t.len() {
+                                    writeln!(o, "pplog {} ok {}", hex(t.as_bytes()), hex(format!("{:?}", x).as_bytes())).unwrap();
+                                } else {
+                                    writeln!(o, "pplog {} err {}", hex(t.as_bytes()), rest.location_offset()).unwrap();
+                                }
+                            }
+                            Err(nom::Err::Error(e)) | Err(nom::Err::Failure(e)) => {
+                                match nom_greedyerror::error_position(&e) {
+                                    Some(p) => writeln!(o, "pplog {} err {}", hex(t.as_bytes()), p).unwrap(),
+                                    None => writeln!(o, "pplog {} err -", hex(t.as_bytes())).unwrap(),
+                                }
+                            }
+                            Err(nom::Err::Incomplete(_)) => writeln!(o, "pplog {} err -", hex(t.as_bytes())).unwrap(),
+                        }
                     }
                 }
                 if ctx.want.contains("state") {
